@@ -461,6 +461,7 @@ Proof.
   - exists (commit (set_lb i (forward i))). split; [reflexivity|]. split; [exact R'|exact Hh].
 Qed.
 
+
 (* ------------------------------------------------------------------ histories *)
 
 Lemma pending_off : forall rs b f, (b <= f)%nat ->
@@ -469,3 +470,149 @@ Proof.
   intros rs b f H. unfold pending. cbn [fst snd sp_runes]. rewrite (off_sub rs b f H). lia.
 Qed.
 
+Theorem lexemes_refine : forall ops rs i b f lo0 lo1,
+  Forall scalar rs -> Forall (fun c => c <> 0%N) rs ->
+  RInv rs i b f lo0 lo1 ->
+  within (hn i) (mkSsrc rs false) (b, f) ops = true ->
+  exists vs i', run i ops = Ok (vs, i') /\
+                map proj vs = fst (srun (mkSsrc rs false) (b, f) ops).
+Proof.
+  induction ops as [|o ops IH]; intros rs i b f lo0 lo1 Hs Hz R Hw.
+  - exists [], i. split; reflexivity.
+  - cbn [within] in Hw. apply andb_true_iff in Hw. destruct Hw as [Hw1 Hw2].
+    apply Nat.leb_le in Hw1.
+    pose proof (r_bf _ _ _ _ _ _ R) as Hbf.
+    cbn [run srun]. destruct o.
+    + (* Next *)
+      cbn [sstep sp_runes sp_bad] in *.
+      destruct (nth_error rs f) as [c|] eqn:En.
+      * assert (Hf : (f < length rs)%nat) by (apply nth_error_Some; congruence).
+        assert (Hc : nth f rs 0%N = c) by (apply nth_error_nth with (d := 0%N) in En; exact En).
+        cbn [snd] in *.
+        assert (Hwz : off rs (Datatypes.S f) - off rs b <= hnZ i).
+        { rewrite <- pending_off by lia. unfold hnZ. lia. }
+        destruct (step_next_rune rs i b f lo0 lo1 Hs Hz R Hf Hwz) as (i' & a & d & HN & R' & Hh).
+        rewrite <- Hh in Hw2.
+        destruct (IH rs i' b (Datatypes.S f) a d Hs Hz R' Hw2) as (vs & i'' & Hrun & Hproj).
+        unfold step. rewrite HN. cbn [bind]. rewrite Hrun. cbn [bind].
+        exists (VRune (nth f rs 0%N) :: vs), i''. split; [reflexivity|].
+        destruct (srun (mkSsrc rs false) (b, Datatypes.S f) ops) as [svs st2].
+        cbn [map proj fst] in *. rewrite Hproj, Hc. reflexivity.
+      * assert (Hf : f = length rs) by (apply nth_error_None in En; lia).
+        cbn [snd] in *.
+        rewrite (step_next_eof rs i b f lo0 lo1 R Hf) || idtac.
+        destruct (IH rs i b f lo0 lo1 Hs Hz R Hw2) as (vs & i'' & Hrun & Hproj).
+        unfold step. rewrite (step_next_eof rs i b f lo0 lo1 R Hf). cbn [bind]. rewrite Hrun. cbn [bind].
+        exists (VEOF :: vs), i''. split; [reflexivity|].
+        destruct (srun (mkSsrc rs false) (b, f) ops) as [svs st2].
+        cbn [map proj fst] in *. rewrite Hproj. reflexivity.
+    + (* Retract *)
+      cbn [sstep] in *. cbn [snd] in *.
+      destruct (Nat.ltb_spec b f) as [Hlt|Hge].
+      * destruct (step_retract rs i b f lo0 lo1 Hz R Hlt) as (i' & HR & R' & Hh).
+        rewrite <- Hh in Hw2.
+        destruct (IH rs i' b (Nat.pred f) lo0 lo1 Hs Hz R' Hw2) as (vs & i'' & Hrun & Hproj).
+        unfold step. rewrite HR. cbn [bind]. rewrite Hrun. cbn [bind].
+        exists (VUnit :: vs), i''. split; [reflexivity|].
+        destruct (srun (mkSsrc rs false) (b, Nat.pred f) ops) as [svs st2].
+        cbn [map proj fst] in *. rewrite Hproj. reflexivity.
+      * assert (b = f) by lia. subst f.
+        destruct (IH rs i b b lo0 lo1 Hs Hz R Hw2) as (vs & i'' & Hrun & Hproj).
+        unfold step. rewrite (step_retract_empty rs i b lo0 lo1 R). cbn [bind]. rewrite Hrun. cbn [bind].
+        exists (VUnit :: vs), i''. split; [reflexivity|].
+        destruct (srun (mkSsrc rs false) (b, b) ops) as [svs st2].
+        cbn [map proj fst] in *. rewrite Hproj. reflexivity.
+    + (* Lexeme *)
+      cbn [sstep sp_runes] in *.
+      destruct (lc_after (firstn b rs)) as [l c] eqn:Elc. cbn [snd] in *.
+      destruct (step_lexeme rs i b f lo0 lo1 R) as (i' & HL & R' & Hh).
+      rewrite <- Hh in Hw2.
+      destruct (IH rs i' f f lo0 lo1 Hs Hz R' Hw2) as (vs & i'' & Hrun & Hproj).
+      unfold step. rewrite HL. cbn [bind]. rewrite Hrun. cbn [bind].
+      eexists (VLexeme _ (posOf i) :: vs), i''. split; [reflexivity|].
+      destruct (srun (mkSsrc rs false) (f, f) ops) as [svs st2].
+      cbn [map proj fst] in *. rewrite Hproj.
+      pose proof (r_lc _ _ _ _ _ _ R) as Hlc. rewrite Elc in Hlc. injection Hlc as H1 H2.
+      unfold posOf; cbn [p_line p_col]. rewrite H1, H2. reflexivity.
+    + (* Skip *)
+      cbn [sstep sp_runes] in *.
+      destruct (lc_after (firstn b rs)) as [l c] eqn:Elc. cbn [snd] in *.
+      destruct (step_skip rs i b f lo0 lo1 R) as (i' & HL & R' & Hh).
+      rewrite <- Hh in Hw2.
+      destruct (IH rs i' f f lo0 lo1 Hs Hz R' Hw2) as (vs & i'' & Hrun & Hproj).
+      unfold step. rewrite HL. cbn [bind]. rewrite Hrun. cbn [bind].
+      eexists (VSkip (posOf i) :: vs), i''. split; [reflexivity|].
+      destruct (srun (mkSsrc rs false) (f, f) ops) as [svs st2].
+      cbn [map proj fst] in *. rewrite Hproj.
+      pose proof (r_lc _ _ _ _ _ _ R) as Hlc. rewrite Elc in Hlc. injection Hlc as H1 H2.
+      unfold posOf; cbn [p_line p_col]. rewrite H1, H2. reflexivity.
+Qed.
+
+(** From New on. *)
+Theorem lexemes_from_new : forall n ds d rs ops,
+  (1 <= n)%nat -> rs <> [] -> Forall scalar rs -> Forall (fun c => c <> 0%N) rs ->
+  within n (mkSsrc rs false) (0%nat, 0%nat) ops = true ->
+  exists i0 vs i',
+    new n (mkReader (encode_all rs) ds d) = Ok (Some i0) /\
+    run i0 ops = Ok (vs, i') /\
+    map proj vs = fst (srun (mkSsrc rs false) (0%nat, 0%nat) ops).
+Proof.
+  intros n ds d rs ops Hn Hne Hs Hz Hw.
+  destruct (new_spec (encode_all rs) n ds d Hn (encode_all_nonempty rs Hne))
+    as (i0 & Hnew & HI & E1 & E2 & E3 & E4 & E5 & E6 & E7 & E8 & E9).
+  assert (R : RInv rs i0 0 0 0 (- Z.of_nat n)).
+  { assert (Hh : hnZ i0 = Z.of_nat n) by (unfold hnZ; congruence).
+    constructor.
+    - lia.
+    - exact HI.
+    - unfold older. rewrite E9. unfold off. simpl. lia.
+    - rewrite Hh. unfold off. simpl. lia.
+    - rewrite Hh, E2. unfold maps, off. simpl length. split; [lia|].
+      destruct (Z.ltb_spec 0 (Z.of_nat n)); lia.
+    - rewrite E7, sub_nil. reflexivity.
+    - rewrite E3. reflexivity.
+    - rewrite E4, E5. reflexivity.
+    - rewrite E6, E8, E5, sub_nil. reflexivity. }
+  rewrite <- E1 in Hw.
+  destruct (lexemes_refine ops rs i0 0 0 0 (- Z.of_nat n) Hs Hz R Hw) as (vs & i' & Hrun & Hp).
+  exists i0, vs, i'. repeat split; assumption.
+Qed.
+
+(* ------------------------------------------------------------------ what the abstract reader guarantees *)
+
+(** Lexemes and skipped spans tile the consumed prefix, in order. *)
+Lemma spans_concat : forall ops rs b f, (b <= f)%nat ->
+  let s := mkSsrc rs false in
+  let '(b', f') := snd (srun s (b, f) ops) in
+  (b' <= f')%nat /\ (b <= b')%nat /\
+  concat (spans s (b, f) ops) = encode_all (sub b b' rs).
+Proof.
+  induction ops as [|o ops IH]; intros rs b f Hbf; cbn zeta.
+  - cbn [srun snd spans concat]. rewrite sub_nil. repeat split; lia.
+  - cbn [srun spans].
+    destruct o; cbn [sstep sp_runes sp_bad snd fst].
+    + destruct (nth_error rs f) as [c|] eqn:En; cbn [snd].
+      * specialize (IH rs b (Datatypes.S f) ltac:(lia)). cbn zeta in IH.
+        destruct (srun (mkSsrc rs false) (b, Datatypes.S f) ops) as [vs [b' f']]. cbn [snd] in *. exact IH.
+      * specialize (IH rs b f Hbf). cbn zeta in IH.
+        destruct (srun (mkSsrc rs false) (b, f) ops) as [vs [b' f']]. cbn [snd] in *. exact IH.
+    + destruct (Nat.ltb_spec b f).
+      * specialize (IH rs b (Nat.pred f) ltac:(lia)). cbn zeta in IH.
+        destruct (srun (mkSsrc rs false) (b, Nat.pred f) ops) as [vs [b' f']]. cbn [snd] in *. exact IH.
+      * specialize (IH rs b f Hbf). cbn zeta in IH.
+        destruct (srun (mkSsrc rs false) (b, f) ops) as [vs [b' f']]. cbn [snd] in *. exact IH.
+    + destruct (lc_after (firstn b rs)) as [l c]. cbn [snd].
+      specialize (IH rs f f (le_n f)). cbn zeta in IH.
+      destruct (srun (mkSsrc rs false) (f, f) ops) as [vs [b' f']]. cbn [snd concat] in *.
+      destruct IH as (I1 & I2 & I3). repeat split; try lia.
+      rewrite I3, <- encode_all_app. f_equal.
+      unfold sub. replace (b' - b)%nat with ((f - b) + (b' - f))%nat by lia.
+      rewrite firstn_plus. f_equal. rewrite skipn_plus. f_equal. f_equal. lia.
+    + destruct (lc_after (firstn b rs)) as [l c]. cbn [snd].
+      specialize (IH rs f f (le_n f)). cbn zeta in IH.
+      destruct (srun (mkSsrc rs false) (f, f) ops) as [vs [b' f']]. cbn [snd concat] in *.
+      destruct IH as (I1 & I2 & I3). repeat split; try lia.
+      rewrite I3, <- encode_all_app. f_equal.
+      unfold sub. replace (b' - b)%nat with ((f - b) + (b' - f))%nat by lia.
+      rewrite firstn_plus. f_equal. rewrite skipn_plus. f_equal. f_equal. lia.
+Qed.
